@@ -435,6 +435,14 @@ def predicates(ctx: Ctx) -> None:
                     "ts": [[u, v, (z if e == top else e - top), c] for u, v, e, c in spec["ts"]]}
             ts_above = all(e > max(spec["E"][u], spec["E"][v]) for u, v, e, _ in spec["ts"] if u != v)
         nn = len(spec["E"])
+        if it % 4 == 1 and nn >= 2:
+            # the same network read from files whose rows are not in index order (each row of min.data names its index)
+            perm = list(range(nn))
+            rng.shuffle(perm)
+            spec = dict(spec, file_order=perm)
+        elif it % 7 == 3 and nn >= 2:
+            # minimum 0 stored as an integer array
+            spec = dict(spec, coords=[[float(round(x)) for x in spec["coords"][0]]] + list(spec["coords"][1:]), int_first=True)
         excl = random_excl(rng, nn)
         for scheme in SCHEMES:
             size = rng.choice([0, 1, 2, 3, nn, nn + 2])
